@@ -697,6 +697,9 @@ class Output(object):
                 self.witver = self.script.commands[0] - 80
 
         if self.public_key and not self.public_hash:
+            if self.script_type == 'p2tr':
+                raise TransactionError("Cannot derive a taproot output from a public key, please provide the 32 byte "
+                                       "witness program as public_hash")
             self.public_hash = hash160(self.public_key)
         elif self._address and (not self.public_hash or not self.script_type or not self.encoding):
             address_dict = deserialize_address(self._address, self.encoding, self.network.name)
